@@ -561,6 +561,10 @@ def respondTag (cfg : Cfg) (produces : List Bytes) (route : Option Route) (req :
 
 def run (ins outs : List String) : Verdict :=
   match ins, outs with
+  | _, ["PANIC", msg] =>
+    -- the harness itself gave up on the case: the message (hex) says what it saw, e.g. the two entry
+    -- points disagreeing on 406 (`c08TypedEntryAgrees`)
+    { agree := false, specOk := false, tag := "harness-report", model := "impl (hex message): " ++ msg }
   | [stream, dflt, regKeys, _regKinds, opProduces, codes, hasDefault, method, accept, sec, realm, cred, fn,
       data, mode, argProduces, memo],
     [oc, st, ct, www, calls, body, handed, errcalls, ran, succ, rprod, encs, ebody] =>
